@@ -336,6 +336,10 @@ def run(chk):
     dispatch(chk)
     curved_specs(chk)
     repr_templates(chk)
+    # to_hoomd of Polygon / Polyhedron on a symbolic number of vertices: the exported vertices are those of the shape centred at its centroid and the
+    # stored vertices are restored, on every path (shared with C16)
+    from .c16 import hoomd_restores
+    chk.section("to_hoomd_exports_the_centred_shape", "coxeter.shapes.polygon::Polygon.to_hoomd", lambda: hoomd_restores(chk))
     fkey = "gsd / repr / to_hoomd round trips end-to-end"
     chk.functions.setdefault(fkey, {"sha": "-", "paths": 0, "lines": 0, "bounded_only": True})
     fails = []
